@@ -137,6 +137,8 @@ def drive(task):
         if task["part"] == 3:
             for rules in cfgsrc.LONG_RHS:
                 yield from events({"kind": "cfg_rules", "rules": [list(r) for r in rules]}, task["n"])
+            for src in cfgsrc.nullable_order_srcs(random.Random(7), 8 if task["stride"] > 1 else 40):
+                yield from events(src, task["n"])
         if task["part"] == 0:
             for rules in cfgsrc.SPECIAL:
                 yield from events({"kind": "cfg_rules", "rules": [list(r) for r in rules]}, task["n"])
